@@ -231,8 +231,12 @@ function makeRealm (seed, opts) {
   const args = [value(), value(), value(), value(), value()]
   const K = function K (...a) { ev('construct K', a.map(x => ser(x)).join('|')); this.p = a[0] }
   reg(K, 'K')
+  // a class of the program that extends K inherits its static side from K, i.e. from the host realm's Function.prototype:
+  // its source text (which differs between the two runs) must not be observable through string coercion
+  Object.defineProperty(K, 'toString', { value: function toString () { return 'function () { [code] }' }, enumerable: false })
   const globals = { g: value(), h: fn(0, 'h'), o: obs(0), s: 'global string', K, console: undefined }
-  for (const b of bareNames) globals[b] = fn(0, 'bare-' + b)
+  // (`eval` stays the context's own: the prologue and direct-eval statements of the programs use it)
+  for (const b of bareNames) if (b !== 'eval') globals[b] = fn(0, 'bare-' + b)
   if (!opts.noHooks) globals._ddiast = dd
   return { log, side, hookLog, hookErrors, args, globals, ser, ids, reg, overflow, setRegExp: (r) => { RegExpOfContext = r } }
 }
